@@ -185,12 +185,22 @@ def respond (line : String) : String :=
   | ["waits-replay", reach, evs] => WaitsWire.respond reach evs
   | ["runloop-replay", kg, evs] => RunLoopWire.respond kg evs
   | ["tokloop-replay", kind, evs] => TokLoopWire.respond kind evs
-  | ["base-of", cwd, redos, targets] =>
-    -- cwd: hex; redos: `,`-separated hex directories that contain `.redo` (`-` = none); targets: `,`-separated hex spellings
+  | ["base-of", cwd, redos, targets, ct] =>
+    -- cwd: hex; redos: `,`-separated hex directories that contain `.redo` (`-` = none); targets: `,`-separated hex spellings;
+    -- ct: what `Path::canonicalize` answers (`;`-separated `<path>=<canonical path>` hex pairs, `!` = nothing exists)
+    let table : List (List Char × List Char) :=
+      if ct = "!" then [] else
+      (ct.splitOn ";").filterMap fun e =>
+        match e.splitOn "=" with
+        | [k, v] => match dec k, dec v with
+          | some k, some v => some (k, v)
+          | _, _ => none
+        | _ => none
+    let canon (p : List Char) : Option (List Char) := (table.find? (fun e => e.1 == p)).map (·.2)
     match dec cwd, (if redos = "-" then some [] else (redos.splitOn ",").mapM dec), (targets.splitOn ",").mapM dec with
     | some cwd, some rs, some ts =>
       let rcs := rs.map (fun r => Paths.comps (Paths.normpath r))
-      enc (Paths.render true (Base.baseOf (fun d => rcs.contains d) cwd ts))
+      enc (Paths.render true (Base.baseOf canon (fun d => rcs.contains d) cwd ts))
     | _, _, _ => "bad-op"
   | ["stamp-override", a, b] =>
     match dec a, dec b with
